@@ -39,6 +39,11 @@ CHECKS = {
    text="Every set of <=K entries (routers, splitters, resolvers with redirect / failover / subsets, service-defaults and proxy-defaults protocols, incl. mutual references, cycles and protocol mismatches) over services a, b, c is (A) compiled directly for every service and override protocol, three times, and (B) written to a real store in every order and then deleted entry by entry. Oracles: compilation terminates (25 s no-progress watchdog on worker subprocesses with an address-space limit); a chain that compiles has an existing start node, only existing next nodes and targets, every path ending at a resolver with a target, no cycle and no unreachable node; repeated compilations are identical; a rejected write leaves entries and their index unchanged; after every accepted write or delete every chain still compiles; equal stored sets give equal chains whatever the write order.",
    note="K=3 quick (last element restricted to router/splitter/resolver), 4 thorough.",
    design="§3 C15"),
+ "C19": dict(level="exploration", engine="E3 grid",
+   technique="bounded-exhaustive enumeration of (local, remote, last index) list pairs through the real replication round (real replicator types, diff, batching, apply order) on a real store; set-equality oracle",
+   text="For ACL policies, roles and tokens every assignment of {absent, content 1, content 2} to three ids locally and {absent, content x modify index} remotely (plus the case where the primary re-created an object under a new ID with the same name), with every last-seen remote index consistent with what the secondary already applied, is loaded into a real state store; one real Server.replicateACLType round then runs with the real replicator types (sorting, metadata, diffACLType, deletion/upsert batching and their order); only the network fetch and the raft apply are replaced by a canned primary and FSM.Apply. Required: the round succeeds, the replicated set equals the primary's (ids and hashes), a local-scoped token is untouched, and an already equal secondary performs no write. Config entries: every assignment over four kind/name ids incl. one name under several kinds, three input orders, real diffConfigEntries applied to a set.",
+   note="Federation-state replication is not enumerated. The rate limiter and RPC layer are not part of the round.",
+   design="§3 C19"),
  "C20": dict(level="fault_enumeration", engine="E3 grid",
    technique="exhaustive fault enumeration over a fresh archive: every byte position x flip values, every truncation, every member edit, gzip-level damage; reject-or-exact oracle with position classes",
    text="For each payload size and metadata variant a fresh archive is written by the real writer; then every byte position is flipped (5 patterns quick, all 255 values thorough), the archive is cut at every length, every member is removed, reordered, duplicated, shadowed by an injected copy, and an extra member of every tar entry type is injected at every position; SHA256SUMS lines are dropped, duplicated and extended. The same member edits, every gzip byte position and truncation, trailing garbage and concatenated gzip members go through the exported snapshot.Read. Every outcome must be reject, or accept with exactly the original state bytes and metadata; damage inside state.bin or meta.json content, a missing member or checksum line, a cut before the last member is complete, or any extra member must be rejected; no file handle may be returned together with an error.",
